@@ -40,8 +40,8 @@ CHECKS = {
             TRUST_CRDT + " Import = SetMetaAndSnapshot + ResetTransaction as the SDK's init does.",
             "DESIGN.md §4 C10"),
     "C14": ("exploration", "runtime monitoring: codec-chain round trip (proto, BSON document, decode, re-encode, echo service) with same-effect oracle on replicas",
-            "Operations produced by real datatypes from Go-native values of every shape (integers of every width signed and unsigned, floats, strings, booleans, pointers to each of them, structs, typed slices and maps) go through every encoding stage; pointers to primitives are handed over as private copies that are overwritten as soon as the call returns, so a datatype that keeps the caller's pointer encodes something else than it applied; ids, types and JSON bodies must survive, the echo service must return an equivalent operation, and replicas fed with decoded operations must equal the issuing replica; a fifth of the histories run at a non-zero era.",
-            TRUST_CRDT + " BSON stage = bson.Marshal/Unmarshal of schema.OperationDoc (what the repository layer stores); values are JSON-representable, strings valid UTF-8.",
+            "Operations produced by real datatypes from Go-native values of every shape (integers of every width signed and unsigned, floats, strings, booleans, pointers to each of them, structs, typed slices and maps) go through every encoding stage; pointers to primitives are handed over as private copies that are overwritten as soon as the call returns, so a datatype that keeps the caller's pointer encodes something else than it applied; ids, types and JSON bodies must survive, the echo service must return an equivalent operation, and replicas fed with decoded operations must equal the issuing replica; a fifth of the histories run at a non-zero era; service stage (one case in eight): the operations (values of several KiB included) are pushed through the real service, every stored operation document is read back from the MongoDB stand-in and compared with what was sent, and a later subscriber plus the server's rebuild read what the issuing client reads.",
+            TRUST_CRDT + " BSON stage of the codec chain = bson.Marshal/Unmarshal of schema.OperationDoc (what the repository layer stores); the service stage uses the real driver and the MongoDB stand-in; values are JSON-representable, strings valid UTF-8.",
             "DESIGN.md §4 C14"),
     "C15": ("exploration", "runtime monitoring: exhaustive bounded grid + random tuples for Hash injectivity and order axioms; identifier monitors on seeded histories",
             "Timestamp.Hash is checked injective over an exhaustive grid (2.4M keys) and 10^6 random tuples, the order axioms on 2x10^5 triples, and every history of C01/C03/C09/C15 runs under monitors for gapless client sequence numbers, causality of new operations and distinct identity keys.",
